@@ -40,8 +40,27 @@ Range1(s) == {s[x] : x \in 1..Len(s)}
 
 \* win[b]: number of the idle window batch b is in = 1 + the successful results
 \* accounted for it while it was alive (each of them starts a new window).
+\* rec: the record of every address as the trace shows it: <<address, successes,
+\* failures, ambiguous>>.  Successes / failures are results the dispatcher
+\* accounted for a batch that was still open; a disconnect, or a result for a
+\* batch that already had its verdict, makes the record ambiguous (the statement
+\* does not say how those count).  done[b] = 1 once batch b has a verdict.
 AbsInit == [opts |-> <<>>, fails |-> <<>>, cancel |-> <<>>, hardx |-> <<>>, win |-> <<>>,
-            latest |-> {}, live |-> {}, hold |-> {}, stopped |-> 0]
+            latest |-> {}, live |-> {}, hold |-> {}, stopped |-> 0, rec |-> {}, done |-> <<>>]
+
+RecOf(a, x) == IF \E r \in a.rec : r[1] = x THEN CHOOSE r \in a.rec : r[1] = x
+               ELSE <<x, 0, 0, 0>>
+
+\* x has a strictly better record than y: at least as many successes, at most
+\* as many failures, one of them strictly, both records unambiguous and short
+\* enough (<= 4 events) that no bounded score can have saturated.
+BetterRecord(a, x, y) ==
+  LET rx == RecOf(a, x)
+      ry == RecOf(a, y)
+  IN  /\ rx[4] = 0 /\ ry[4] = 0
+      /\ rx[2] + rx[3] <= 4 /\ ry[2] + ry[3] <= 4
+      /\ rx[2] >= ry[2] /\ rx[3] <= ry[3]
+      /\ (rx[2] > ry[2] \/ rx[3] < ry[3])
 
 NB(a) == Len(a.opts)
 
@@ -51,7 +70,7 @@ Avail(a) == {p[1] : p \in {q \in a.latest : q \in a.live /\
 
 Zeros(n) == [x \in 1..n |-> 0]
 
-AbsNext(a, act, o2) ==
+AbsCore(a, act, o2) ==
   CASE act.op = "Connect" ->
          [a EXCEPT !.latest = {q \in @ : q[1] # act.a} \cup {<<act.a, act.i>>},
                    !.live = @ \cup {<<act.a, act.i>>}]
@@ -69,6 +88,14 @@ AbsNext(a, act, o2) ==
                    !.fails = IF act.e \in {1, 2, 4} /\ act.b \in 1..Len(@)
                              THEN [@ EXCEPT ![act.b][act.k] = @ + 1] ELSE @,
                    !.live = IF act.e = 2 THEN @ \ {<<act.a, act.i>>} ELSE @,
+                   !.rec = IF act.res = "blocked" THEN @
+                           ELSE LET r == RecOf(a, act.a)
+                                    wasOpen == act.b \in 1..Len(a.done) /\ a.done[act.b] = 0
+                                    r2 == IF act.e = 2 \/ (~wasOpen /\ act.e # 3) THEN <<r[1], r[2], r[3], 1>>
+                                          ELSE IF act.e = 0 THEN <<r[1], r[2] + 1, r[3], r[4]>>
+                                          ELSE IF act.e \in {1, 4} THEN <<r[1], r[2], r[3] + 1, r[4]>>
+                                          ELSE r
+                                IN  {q \in @ : q[1] # act.a} \cup {r2},
                    !.win = IF /\ act.e = 0 /\ act.res # "blocked" /\ act.b \in 1..Len(@)
                               /\ act.b \in 1..Len(o2.verd) /\ Len(o2.verd[act.b]) = 0
                            THEN [@ EXCEPT ![act.b] = @ + 1] ELSE @]
@@ -79,6 +106,10 @@ AbsNext(a, act, o2) ==
     [] act.op = "Stop" /\ act.res = "ok" ->
          [a EXCEPT !.stopped = 1, !.live = {}, !.hold = {}]
     [] OTHER -> a
+
+AbsNext(a, act, o2) ==
+  [AbsCore(a, act, o2) EXCEPT
+     !.done = [b \in 1..Len(o2.verd) |-> IF Len(o2.verd[b]) > 0 THEN 1 ELSE 0]]
 
 \* Is verdict v, newly delivered for batch b on this step, one of the outcomes
 \* the statement allows, and has its cause occurred?
@@ -127,6 +158,14 @@ Viol(a, o, act, a2, o2) ==
            \E x \in Avail(a) : x # act.a /\ x \in 1..Len(o.score) /\
                                o.score[x] >= 0 /\ o.score[x] < o.score[act.a]
         THEN {"PrefersBetterRanked"} ELSE {})
+  \* ... preferring peers with a better record, the record being what the trace
+  \* itself shows (not the ranking's own numbers): a job never goes to a peer
+  \* while an available peer has a strictly better record.  Judged where a
+  \* ranking is under observation (scores known).
+  \cup (IF act.op = "Dispatch" /\ act.a \in 1..Len(o.score) /\ o.score[act.a] >= 0 /\
+           \E x \in Avail(a) : x # act.a /\ x \in 1..Len(o.score) /\ o.score[x] >= 0 /\
+                               BetterRecord(a, x, act.a)
+        THEN {"PrefersBetterRecord"} ELSE {})
   \cup (IF o2.disp \in {0, 2} /\ Avail(a2) # {} /\
            \E b \in 1..nb : b <= NB(a2) /\ open(b) /\
               \E k \in 1..Len(o2.ans[b]) :
